@@ -152,11 +152,12 @@ func NewLeaderController(config Config, namespace string, shardId int64, rpcClie
 	lc.sessionManager = NewSessionManager(lc.ctx, namespace, shardId, lc)
 
 	var err error
-	if lc.wal, err = walFactory.NewWal(namespace, shardId, lc); err != nil {
+	// The DB needs to be opened before the WAL, because the WAL recovery uses the commit offset
+	if lc.db, err = kv.NewDB(namespace, shardId, kvFactory, config.NotificationsRetentionTime, time2.SystemClock); err != nil {
 		return nil, err
 	}
 
-	if lc.db, err = kv.NewDB(namespace, shardId, kvFactory, config.NotificationsRetentionTime, time2.SystemClock); err != nil {
+	if lc.wal, err = walFactory.NewWal(namespace, shardId, lc); err != nil {
 		return nil, err
 	}
 
@@ -1010,6 +1011,12 @@ func (lc *leaderController) CommitOffset() int64 {
 	qat := lc.quorumAckTracker
 	if qat != nil {
 		return qat.CommitOffset()
+	}
+	if db := lc.db; db != nil {
+		// Not leading (yet): the commit offset is the one stored in the db
+		if commitOffset, err := db.ReadCommitOffset(); err == nil {
+			return commitOffset
+		}
 	}
 	return wal.InvalidOffset
 }
